@@ -187,3 +187,61 @@ def error_translation(ctx, P, py, rule="FILE-ERRORS"):
                 conv, why = True, "exception: " + KAS_RAW_OK[(f.name, nm)]
             ctx.ob(rule, "%s->%s@%d" % (f.name, nm, k), conv, t.loc(c), why)
             k += 1
+
+
+def layout_agreement(ctx, P, rule="KAS-LAYOUT"):
+    ctx.rule(rule, "the kastore writer and reader agree on the byte layout of the header and of an item descriptor: for every field "
+                   "the (offset, size) used by memcpy in kastore_write_header / _descriptors equals the one in kastore_read_header / "
+                   "_descriptors, the size equals sizeof of the field's C type, fields do not overlap and fit in the record, and "
+                   "the magic is written and compared over the same 8 bytes")
+    tu = P.tus["kastore"]
+
+    def tuples(fn, buf, writing):
+        out = {}
+        for c in calls(fn.body):
+            if callee(c) != "memcpy":
+                continue
+            a = c.kids[1:]
+            dst, src, n = strip(a[0]), strip(a[1]), a[2]
+            side, other = (dst, src) if writing else (src, dst)
+            off = None
+            if side is not None and side.k == "DeclRefExpr" and side.ref == buf:
+                off = 0
+            elif side is not None and side.k == "BinaryOperator" and side.op == "+" and estr(side.kids[0]) == buf:
+                off = const_int(side.kids[1])
+            if off is None:
+                continue
+            field = estr(other).lstrip("&")
+            o = strip(other)
+            ty = None
+            if o is not None and o.k == "UnaryOperator" and o.op == "&":
+                ty = strip(o.kids[0]).ty
+            out[field] = (off, const_int(n), ty, c)
+        return out
+    SIZES = {"uint8_t": 1, "uint16_t": 2, "uint32_t": 4, "uint64_t": 8, "int8_t": 1, "int32_t": 4, "int64_t": 8, "size_t": 8}
+    for wname, rname, buf, total in (("kastore_write_header", "kastore_read_header", "header", "KAS_HEADER_SIZE"),
+                                     ("kastore_write_descriptors", "kastore_read_descriptors", "descriptor", "KAS_ITEM_DESCRIPTOR_SIZE")):
+        wf, rf = P.need(wname, "kastore"), P.need(rname, "kastore")
+        w, r = tuples(wf, buf, True), tuples(rf, buf, False)
+        fields = sorted(set(w) | set(r))
+        ctx.ob(rule, "%s|fields" % buf, set(w) - {"KAS_MAGIC"} == set(r) - {"KAS_MAGIC"} and len(r) >= 4, tu.loc(rf.node),
+               "writer fields %s, reader fields %s" % (sorted(w), sorted(r)))
+        spans = []
+        for f in fields:
+            if f == "KAS_MAGIC":
+                continue
+            if f in w and f in r:
+                ok = w[f][:2] == r[f][:2]
+                why = "%s at offset %s, %s bytes on both sides" % (f, w[f][0], w[f][1]) if ok else \
+                    "%s written at (%s, %s) but read at (%s, %s)" % (f, w[f][0], w[f][1], r[f][0], r[f][1])
+                ty = (w[f][2] or r[f][2] or "")
+                if ok and ty in SIZES and SIZES[ty] != w[f][1]:
+                    ok, why = False, "%s is a %s (%d bytes) but %s bytes are copied" % (f, ty, SIZES[ty], w[f][1])
+                ctx.ob(rule, "%s|%s" % (buf, f), ok, tu.loc(r[f][3]), why)
+                spans.append((w[f][0], w[f][0] + (w[f][1] or 0), f))
+        spans.sort()
+        overlap = [(a, b) for a, b in zip(spans, spans[1:]) if a[1] > b[0]]
+        ctx.ob(rule, "%s|no-overlap" % buf, not overlap, tu.loc(wf.node), "fields do not overlap: %s" % [(s[2], s[0], s[1]) for s in spans])
+    wsrc, rsrc = tu.src(P.need("kastore_write_header", "kastore").body), tu.src(P.need("kastore_read_header", "kastore").body)
+    ctx.ob(rule, "magic", "memcpy(header, KAS_MAGIC, 8)" in wsrc and "strncmp(header, KAS_MAGIC, 8)" in rsrc, tu.loc(P.need("kastore_read_header", "kastore").node),
+           "magic written and compared over the same 8 bytes")
